@@ -473,4 +473,27 @@ theorem nucleated_by_iff (inp : Inputs ℝ) (kCN i : Nat) (hi : i < inp.nVials) 
     rw [nth_final, Nat.zero_add] at tN
     exact ⟨_, tN.2.1, (timeAt_mono inp.p.dt hdt _ _).mpr hle⟩
 
+theorem scatter_all_true (vals : List (Option ℝ)) :
+    scatter (List.replicate vals.length true) vals = vals := by
+  induction vals with
+  | nil => rfl
+  | cons v vs ih => simp [List.replicate_succ, scatter, ih]
+
+/-- the recorded statistics as the list over all vials -/
+theorem stats_eq_finalV (inp : Inputs ℝ) (kCN : Nat) :
+    (runWith inp kCN).tNucleation = (List.range inp.nVials).map (fun i => (finalV inp kCN i).tNuc) ∧
+    (runWith inp kCN).tSolidification = (List.range inp.nVials).map (fun i => (finalV inp kCN i).tSol) := by
+  have hsz : (runWith inp kCN).final.vials.size = inp.nVials := by
+    have := states_size inp.p kCN 0 (profile inp.oc inp.p.dt) (init inp) (runWith inp kCN).final
+      (by rw [← runWith_states]; simp)
+    rw [this]; simp [init]
+  constructor <;>
+  · apply List.ext_getElem
+    · simp [Result.tNucleation, Result.tSolidification, hsz]
+    · intro i h1 h2
+      have hi : i < (runWith inp kCN).final.vials.size := by
+        simp [Result.tNucleation, Result.tSolidification] at h1; exact h1
+      simp [Result.tNucleation, Result.tSolidification, finalV, vAt, hi]
+
+
 end Snow.FlakeStatsLemmas
